@@ -214,6 +214,12 @@ func writeReplayFile(verifDir, prop string, v *Violation) string {
 	for _, c := range v.AssertID {
 		h = (h ^ uint32(c)) * 16777619
 	}
+	for _, a := range v.Args {
+		h = (h ^ uint32(a+1)) * 16777619
+	}
+	for _, d := range v.Decisions {
+		h = (h ^ uint32(d+7)) * 16777619
+	}
 	name := fmt.Sprintf("%s-%08x.json", v.Harness, h)
 	p := filepath.Join(verifDir, "replays", prop, name)
 	b, _ := json.MarshalIndent(v, "", " ")
